@@ -47,6 +47,12 @@ def classify_sql(rec, qi):
     return None
 
 
+def sql_limit(rec):
+    import re
+    m = re.search(r"LIMIT\s+(\d+)", rec.get("text") or "")
+    return int(m.group(1)) if m else None
+
+
 def qscen_bind(v):
     from lib.sqlquery import BIND_RE
     return bool(BIND_RE.search(v)) or "\\" in v
@@ -95,8 +101,9 @@ def oracle(report, scen, rec):
             if missing:
                 cls = classify_sql(rec, qi)
                 if cls is None and len(rec["cleaned"]) > 1 and rec.get("limit") is not None and \
-                        (rec["limit"] < li or len(rec["spec_incl"]) > rec["limit"]):
-                    # one LIMIT (taken from the last filter that has one) is applied to the union
+                        (rec["limit"] < li or len(rec["spec_incl"]) > rec["limit"]) and sql_limit(rec) == rec["limit"]:
+                    # one LIMIT (taken from the last filter that has one) is applied to the union; the known
+                    # class is exactly the documented rule (the model's effectiveLimit), nothing smaller
                     cls = "sql-one-limit-per-req"
                 if cls is None and len(rec["cleaned"]) > 1:
                     # a sibling filter's hazard kills the whole statement
@@ -131,6 +138,18 @@ def run_case(report, scen, rng, adversarial=False):
         rec2 = scen.ask_sql(fs)
         oracle(report, scen, rec2)
         record(report, rec2)
+    # multi-filter REQs in both orders (thread view: [{#e: root}, {ids: root}] and reverse)
+    for k in range(6):
+        fs = [gen.gen_filter(rng, evs, limit_pool=(None, None, None, 5, 100)) for _ in range(rng.choice([2, 2, 3]))]
+        if evs and rng.random() < 0.5:
+            root = rng.choice(evs)["id"]
+            fs = [{"#e": [root]}, {"ids": [root]}] if rng.random() < 0.5 else [{"kinds": [rng.choice(evs)["kind"]]}, {"ids": [root]}]
+            if rng.random() < 0.5:
+                fs.reverse()
+        rec3 = scen.ask_sql(fs)
+        oracle(report, scen, rec3)
+        record(report, rec3)
+        report.count("sql_multi_filter_reqs")
 
 
 def replay_one(report, scen, r):
